@@ -110,8 +110,14 @@ def raw_bytes(draw, profile: Profile) -> bytes:
     return draw(st.binary(min_size=1, max_size=24))
 
 
+# instants around the end (and start) of daylight saving time in three zones: T -/+ half the shift are the two "fold twins"
+# of one wall-clock time, T -/+ 3 h lie on the same local calendar day with different UTC offsets
+DST_INSTANTS = [1635642000000 - 1800000, 1635642000000 + 1800000, 1635642000000 - 10800000, 1635642000000 + 10800000,   # Europe/Paris, Berlin 2021-10-31
+                1636264800000 - 1800000, 1636264800000 + 1800000,                                                      # America/New_York 2021-11-07
+                1617462000000 - 900000, 1617462000000 + 900000,                                                        # Australia/Lord_Howe 2021-04-03
+                1616893200000 - 7200000, 1616893200000 + 7200000]                                                      # Europe/Paris spring forward 2021-03-28
 _TS_BOUNDS = [0, 1, 999, 1000, 1001, 1500, 86399999, 1700000000123, 2**41, 2**41 + 7,
-              TS_MAX_MS - 1, TS_MAX_MS, TS_MAX_MS - 999]
+              TS_MAX_MS - 1, TS_MAX_MS, TS_MAX_MS - 999] + DST_INSTANTS
 _TD64_BOUNDS = [0, 1, -1, 2**31, -(2**31) - 1, 2**53 - 1, 2**53, 2**53 + 1, -(2**53) - 1,
                 2**56 + 3, TD64_MAX_MS, TD64_MAX_MS - 1, TD64_MIN_MS, TD64_MIN_MS + 1,
                 9007199254740993 * 3]
